@@ -1,4 +1,5 @@
 import CffiVerif.Proofs.Callback
+import CffiVerif.Generated.Platform
 
 /-!
 C14 — callbacks and `extern "Python"` pass values exactly and contain errors (partial).
@@ -9,7 +10,8 @@ the generated `extern "Python"` function and read by `general_invoke_callback`;
 
 Partial: libffi's closure dispatch and gcc's calling convention are external
 (correspondence run only).  One class of inputs is a finding on the unchanged
-tree (see `error_value_returned_partial`).
+tree: `double _Complex` arguments of extern "Python" functions (see
+`slot_unsafe_primitives` and the two witnesses next to it).
 -/
 namespace CffiVerif.C14
 open CffiVerif.Call CffiVerif.Callback
@@ -31,8 +33,86 @@ theorem packing_in_bounds (args : List Arg) (hv : ∀ a ∈ args, ∀ b, a = .va
     (i : Nat) (hi : i < args.length) :
     8 * i + args[i].slot.length ≤ bufferSize args.length := by
   have := slot_length_le args[i] (hv _ (List.getElem_mem hi))
-  unfold bufferSize
+  simp only [bufferSize, Generated.ExternPySize.slot, Generated.ExternPySize.minArea]
   omega
+
+/-! ### the argument / result area (size rule regenerated from recompiler.py) -/
+
+/-- With no arguments every primitive type gcc knows on this machine
+(`Generated/Platform.byName`: name ↦ sizeof, measured on every run) already fits. -/
+theorem result_fits_without_arguments :
+    ∀ e ∈ Generated.Platform.byName,
+      resultWritten (.prim e.1 e.2.size) ≤ sizeOfA 0 (.prim e.1 e.2.size) := by decide +kernel
+
+/-- **The result area is large enough**: for every number of arguments, every
+result the backend writes — any primitive type of the platform table under the
+name the generator sees (`long double` and `double _Complex` are the 16-byte
+ones), any pointer/enum/other type of at most 8 bytes, any struct or union of
+any size, `void` — fits in `char a[size_of_a]` as the generator sizes it; and so
+do the argument slots. -/
+theorem result_area_large_enough (nargs : Nat) :
+    (∀ e ∈ Generated.Platform.byName,
+        resultWritten (.prim e.1 e.2.size) ≤ sizeOfA nargs (.prim e.1 e.2.size))
+    ∧ (∀ (name : String) (size : Nat), size ≤ 8 → resultWritten (.prim name size) ≤ sizeOfA nargs (.prim name size))
+    ∧ (∀ size, resultWritten (.aggregate size) ≤ sizeOfA nargs (.aggregate size))
+    ∧ resultWritten .void ≤ sizeOfA nargs .void
+    ∧ (∀ r, nargs * Generated.ExternPySize.slot ≤ sizeOfA nargs r) := by
+  have hmin : ∀ n, 8 ≤ bufferSize n := by
+    intro n; simp only [bufferSize, Generated.ExternPySize.minArea]; omega
+  have hslots : ∀ n, n * Generated.ExternPySize.slot ≤ bufferSize n := by
+    intro n; simp only [bufferSize]; omega
+  have hge : ∀ r, bufferSize nargs ≤ sizeOfA nargs r := by
+    intro r
+    cases r with
+    | void => exact Nat.le_refl _
+    | prim name size => exact foldl_rules_ge _ _ _
+    | aggregate sz => simp only [sizeOfA]; split <;> (try split) <;> omega
+  refine ⟨?_, ?_, ?_, ?_, ?_⟩
+  · intro e he
+    exact Nat.le_trans (result_fits_without_arguments e he) (sizeOfA_mono nargs _)
+  · intro name size hs
+    have := hge (.prim name size)
+    have := hmin nargs
+    simp only [resultWritten]; omega
+  · intro size
+    have h1 := hmin nargs
+    have hs : Generated.ExternPySize.structRule = true := rfl
+    simp only [resultWritten, sizeOfA, hs, if_true]
+    split <;> omega
+  · simp [resultWritten]
+  · intro r; exact Nat.le_trans (hslots nargs) (hge r)
+
+/-- The model's slot addresses `p + 8*i` use the generator's stride. -/
+theorem slot_stride_is_source : Generated.ExternPySize.slot = 8 ∧ Generated.ExternPySize.minArea = 8 := by decide
+
+/-
+**Finding class `C14/extern-python-double-complex-argument`.**  `slot_roundtrip` and
+`packing_in_bounds` carry the hypothesis that an argument stored in its slot has at
+most 8 bytes (`Placed`, `.val b => b.length ≤ 8`).  The generator stores *every*
+primitive except `long double` in the slot — including the 16-byte `double _Complex`:
+-/
+
+/-- The primitives of the platform table that are wider than a slot and yet not passed
+by reference: exactly `double _Complex`. -/
+theorem slot_unsafe_primitives :
+    (Generated.Platform.byName.filter fun e =>
+        decide (e.2.size > Generated.ExternPySize.slot) && !passedByRef e.1 false).map (·.1)
+      = ["_cffi_double_complex_t"] := by decide +kernel
+
+/-- Witness `double _Complex f(int, double _Complex, int)` called with `(1, 2+3i, 4)`:
+the third store overwrites the low bytes of the imaginary part, so what is read for
+argument 1 is not what was passed (3.0 arrives as 3.0000000000000018). -/
+theorem complex_argument_corrupted_witness :
+    readArg (pack (fun _ => 0) 0
+        [.val [1, 0, 0, 0], .val [0, 0, 0, 0, 0, 0, 0, 0x40, 0, 0, 0, 0, 0, 0, 8, 0x40], .val [4, 0, 0, 0]])
+      0 1 false 16
+      = [0, 0, 0, 0, 0, 0, 0, 0x40, 4, 0, 0, 0, 0, 0, 8, 0x40] := by decide +kernel
+
+/-- Witness for a `double _Complex` in the *last* position (`double f(int, double _Complex)`):
+the value arrives intact, but the store ends 8 bytes past `char a[16]`. -/
+theorem complex_last_argument_out_of_bounds_witness :
+    ¬ (8 * 1 + (Arg.val [0, 0, 0, 0, 0, 0, 0, 0x40, 0, 0, 0, 0, 0, 0, 8, 0x40]).slot.length
+        ≤ sizeOfA 2 (.prim "double" 8)) := by decide +kernel
 
 /-! ### result encoding -/
 
@@ -90,29 +170,13 @@ theorem extern_python_result_plain (rt : RT) (o : RetObj) (bs buf : List UInt8)
   | blob n => simp [encodeResult, plainEncode, hconv]
   | prim t => simp [encodeResult, plainEncode, hconv]
 
-/-
-**Full statement (does not hold on the unchanged tree):**
-
-  theorem error_value_returned: if the body raises or returns an unconvertible
-  value, the C caller receives the declared error value, or onerror's value when
-  onerror returns one — in particular the declared error value whenever onerror's
-  result cannot be converted.
-
-Finding class `C14/onerror-unconvertible-result`: for a libffi callback whose
-result type is an unsigned integer, `_Bool` or `char` smaller than 8 bytes, the
-second `convert_from_object_fficallback` zeroes the buffer (memset of the
-`ffi_arg`) *before* the conversion of onerror's result fails, so the C caller
-receives 0 instead of the declared error value (signed types do return it).
-Witness: `error_value_lost_witness`.  The theorem is proved with the extra
-hypothesis that onerror's result, if any, is convertible.
--/
-
-/-- **Errors are contained and the declared error value is returned**: if the
-Python function raises, or returns a value that cannot be converted, no
-exception is left pending and the C caller receives the pre-encoded `error=`
-bytes — when there is no `onerror`, or it returns None, or it raises itself —
+/-- **Errors are contained and the declared error value is returned**, for every
+result type and both callback kinds: if the Python function raises, or returns a
+value that cannot be converted, no exception is left pending and the C caller
+receives the pre-encoded `error=` bytes — when there is no `onerror`, or it returns
+None, or it raises itself, or it returns a value that cannot be converted either —
 or the converted value returned by `onerror`. -/
-theorem error_value_returned_partial (rt : RT) (encode : Bool) (rawerr : List UInt8) (body : Body)
+theorem error_value_returned (rt : RT) (encode : Bool) (rawerr : List UInt8) (body : Body)
     (onerr : OnErr) (buf : List UInt8)
     (hpos : 0 < rt.bytes) (hraw : rawerr.length = max rt.bytes 8) (hbuf : rawerr.length ≤ buf.length)
     (hfail : body = .raises ∨ ∃ o e, body = .returns o ∧ convRes rt o = .error e) :
@@ -120,8 +184,11 @@ theorem error_value_returned_partial (rt : RT) (encode : Bool) (rawerr : List UI
     ∧ (match onerr with
        | .absent | .returnsNone | .raises =>
            (invoke rt encode rawerr body onerr buf).buf.take rawerr.length = rawerr
-       | .returns o' => ∀ bs', convRes rt o' = .ok bs' →
-           received rt (invoke rt encode rawerr body onerr buf) = bs') := by
+       | .returns o' =>
+           (∀ bs', convRes rt o' = .ok bs' →
+              received rt (invoke rt encode rawerr body onerr buf) = bs')
+           ∧ (∀ e', convRes rt o' = .error e' →
+              (invoke rt encode rawerr body onerr buf).buf.take rawerr.length = rawerr)) := by
   have hnv : rt ≠ .void := by intro h; subst h; simp [RT.bytes] at hpos
   have hsz : rt.size > 0 := by
     cases rt with
@@ -134,8 +201,11 @@ theorem error_value_returned_partial (rt : RT) (encode : Bool) (rawerr : List UI
       ∧ (match onerr with
          | .absent | .returnsNone | .raises =>
              (errorPath rt encode rawerr onerr b0).buf.take rawerr.length = rawerr
-         | .returns o' => ∀ bs', convRes rt o' = .ok bs' →
-             received rt (errorPath rt encode rawerr onerr b0) = bs') := by
+         | .returns o' =>
+             (∀ bs', convRes rt o' = .ok bs' →
+                received rt (errorPath rt encode rawerr onerr b0) = bs')
+             ∧ (∀ e', convRes rt o' = .error e' →
+                (errorPath rt encode rawerr onerr b0).buf.take rawerr.length = rawerr)) := by
     intro b0 hb0
     have h1 : (setPrefix rawerr b0).take rawerr.length = rawerr := setPrefix_take _ _
     have h1len : (setPrefix rawerr b0).length = b0.length := setPrefix_length _ _ (by omega)
@@ -144,24 +214,28 @@ theorem error_value_returned_partial (rt : RT) (encode : Bool) (rawerr : List UI
     | returnsNone => simp [errorPath, hsz, h1]
     | raises => simp [errorPath, hsz, h1]
     | returns o' =>
-      refine ⟨?_, ?_⟩
+      refine ⟨?_, ?_, ?_⟩
       · simp only [errorPath]; split <;> rfl
       · intro bs' hc
         obtain ⟨buf2, e1, e2, _⟩ := encode_ok rt encode o' (setPrefix rawerr b0) bs' hc (by omega)
         simp [errorPath, hsz, e1, received, e2]
+      · intro e' hc
+        obtain ⟨buf2, e1, _⟩ := encode_err rt encode o' (setPrefix rawerr b0) e' hc hnv (by omega)
+        simp only [errorPath, hsz, if_true, e1]
+        exact setPrefix_take _ _
   rcases hfail with h | ⟨o, e, h, hc⟩
   · subst h; simpa [invoke] using key buf rfl
   · subst h
     obtain ⟨buf', e1, e2⟩ := encode_err rt encode o buf e hc hnv (by omega)
     simpa [invoke, e1] using key buf' e2
 
-/-- The class excluded above, on the model: `unsigned char (*)(void)` callback with
-`error=5`, body raises, `onerror` returns 300 — the caller receives 0, not 5;
-for `signed char` it receives 5. -/
-theorem error_value_lost_witness :
+/-- The input that used to lose the error value (repaired in /repo, commit 36aca36):
+`unsigned char (*)(void)` callback with `error=5`, body raises, `onerror` returns 300 —
+the caller receives 5, for the unsigned as for the signed type. -/
+theorem error_value_kept_example :
     received (.prim ⟨.uint, .s1⟩)
       (invoke (.prim ⟨.uint, .s1⟩) true [5, 0, 0, 0, 0, 0, 0, 0] .raises
-        (.returns (.obj (.int 300))) [9, 9, 9, 9, 9, 9, 9, 9]) = [0]
+        (.returns (.obj (.int 300))) [9, 9, 9, 9, 9, 9, 9, 9]) = [5]
     ∧ received (.prim ⟨.sint, .s1⟩)
       (invoke (.prim ⟨.sint, .s1⟩) true [5, 0, 0, 0, 0, 0, 0, 0] .raises
         (.returns (.obj (.int 300))) [9, 9, 9, 9, 9, 9, 9, 9]) = [5] := by decide
